@@ -262,6 +262,28 @@ def table_directed_requests(rng, exe, wd, configs):
     return reqs
 
 
+def fill_blt_sweep(rng, quick):
+    """pixman_fill / pixman_blt over every start offset within a 16-byte block and every width up to 40 pixels"""
+    out = []
+    for bpp in (8, 16, 32, 1, 4, 24):
+        for x in range(0, 8 if bpp >= 8 else 33, 1 if bpp >= 8 else 8):
+            for w in (range(0, 41) if not quick else [0, 1, 2, 3, 4, 7, 8, 9, 15, 16, 17, 31, 32, 33, 40]):
+                stride = (((x + w) * bpp + 31) // 32) + rng.choice([0, 1])
+                stride = max(stride, 1)
+                f = [bpp, stride, 2, x, rng.randint(0, 1), w, 1, rng.choice([0x5a5a5a5a, 0xffffffff, 0x01020304]),
+                     rng.randrange(1, 2 ** 31)]
+                out.append("F %d %s" % (len(f), " ".join(map(str, f))))
+    for bpp in (16, 32, 8):
+        for sx in range(0, 4):
+            for dx in range(0, 4):
+                for w in ([0, 1, 2, 3, 5, 8, 15, 16, 17, 33, 36] if quick else range(0, 37)):
+                    ss = ((sx + w) * bpp + 31) // 32 + 1
+                    ds = ((dx + w) * bpp + 31) // 32 + 1
+                    f = [bpp, ss, ds, 2, sx, 0, dx, rng.randint(0, 1), w, 1, rng.randrange(1, 2 ** 31)]
+                    out.append("B %d %s" % (len(f), " ".join(map(str, f))))
+    return out
+
+
 def run_config(exe, script, trace, disable, nthreads=0, extra=(), timeout=900, env_extra=None):
     env = dict(os.environ)
     env["PIXMAN_DISABLE"] = disable
@@ -344,6 +366,9 @@ def run_c02(args):
         directed = rng.sample(directed, 1100)
     chk.extra["table_directed_requests"] = len(directed)
     reqs += directed
+    sweep = fill_blt_sweep(rng, quick)
+    chk.extra["fill_blt_sweep_requests"] = len(sweep)
+    reqs += sweep
     script = os.path.join(wd, "reqs.script")
     open(script, "w").write("\n".join(reqs) + "\n")
     chk.sample({"request_script_lines": reqs[:3]})
